@@ -344,21 +344,28 @@ def edit_constant(parameterized):
     """
     kls_params = parameterized.param.objects(instance=False)
     inst_params = parameterized._param__private.params
-    updated = []
-    for pname, pobj in (kls_params | inst_params).items():
+    # The Parameter that governs the instance is its own copy if it has
+    # one, else the class's; only a flag that was set is restored
+    kls_updated, inst_updated = [], []
+    for pname, pobj in kls_params.items():
+        if pobj.constant and pname not in inst_params:
+            pobj.constant = False
+            kls_updated.append(pname)
+    for pname, pobj in inst_params.items():
         if pobj.constant:
             pobj.constant = False
-            updated.append(pname)
+            inst_updated.append(pname)
     try:
         yield
     finally:
-        for pname in updated:
+        for pname in kls_updated:
             # Some operations trigger a parameter instantiation (copy),
             # we ensure both the class and instance parameters are reset.
-            if pname in kls_params:
-                type(parameterized).param[pname].constant=True
+            type(parameterized).param[pname].constant=True
             if pname in inst_params:
                 parameterized.param[pname].constant = True
+        for pname in inst_updated:
+            parameterized.param[pname].constant = True
 
 
 @contextmanager
